@@ -16,7 +16,9 @@
 (* Statement checked: the wire is transparent - what the client delivers   *)
 (* is, at every moment, a prefix of what the decoder model returns when it *)
 (* is handed the sender's messages directly (no identifier, no bytes, no   *)
-(* reads), and is all of it once the bytes have been read.                 *)
+(* reads, fast-packet messages pre-assembled), and is all of it once the   *)
+(* bytes have been read.  In particular frame-by-frame delivery equals     *)
+(* pre-assembled delivery (C07) for every format and schedule explored.    *)
 (*                                                                         *)
 (* A script item is                                                        *)
 (*   [k |-> "single", pgn ("A"|"B"), src, prio, data (<= 8 bytes)]         *)
@@ -26,7 +28,7 @@
 (***************************************************************************)
 EXTENDS N2KWire, N2KFraming, N2KDecoder, Json, IOUtils
 
-CONSTANTS Format,        \* "ebyte" | "usb" | "yd"
+CONSTANTS Format,        \* "ebyte" | "usb" | "yd" (frame-level) | "actisense" (carries whole messages)
           ChunkSizes,    \* sizes of the reads the transport may deliver (0 = everything that is in flight)
           Cfg            \* decoder configuration (as in N2KDecoder)
 
@@ -49,12 +51,14 @@ PgnNum(kind) == CASE kind = "A" -> 127250 [] kind = "B" -> 130306 [] kind = "F" 
 KindOfPgn(n) == CASE n = 127250 -> "A" [] n = 130306 -> "B" [] n = 128275 -> "F" [] n = 60928 -> "CLAIM" [] OTHER -> "U"
 Disc == CASE Format = "ebyte" -> [kind |-> "fixed", N |-> 13, M1 |-> 0, M2 |-> 0]
           [] Format = "usb"   -> [kind |-> "marker", N |-> 20, M1 |-> 170, M2 |-> 85]
-          [] Format = "yd"    -> [kind |-> "lines", N |-> 0, M1 |-> 0, M2 |-> 0]
+          [] Format \in {"yd", "actisense"} -> [kind |-> "lines", N |-> 0, M1 |-> 0, M2 |-> 0]
 Stamp == <<48, 48, 58, 48, 48, 58, 48, 48, 46, 48, 48, 48>>          \* "00:00:00.000"
 RenderFrame(fr) == CASE Format = "ebyte" -> EByteRender(fr) [] Format = "usb" -> UsbRender(fr)
                      [] Format = "yd" -> YdReceive(fr, Stamp, 82, TRUE)
 ParsePacket(p) == CASE Format = "ebyte" -> EByteParse(p) [] Format = "usb" -> UsbParse(p) [] Format = "yd" -> YdParse(p)
 PacketValid(p) == CASE Format = "ebyte" -> Len(p) = 13 [] Format = "usb" -> UsbValid(p) [] Format = "yd" -> YdValid(p)
+                    [] Format = "actisense" -> ActisenseValid(p)
+AStamp == <<65, 48, 48, 48, 48, 48, 48, 46, 48, 48, 48>>              \* "A000000.000"
 
 ----------------------------------------------------------------------------
 (* the sender *)
@@ -65,22 +69,32 @@ FramesOf(m, q) ==
   IF m.k = "fast"
   THEN [j \in 1..NFrames(Len(m.data)) |-> [id |-> Build(PgnNum("F"), m.src, 255, m.prio), data |-> FastData(m, q, j - 1)]]
   ELSE << [id |-> Build(PgnNum(m.pgn), m.src, 255, m.prio), data |-> m.data] >>
-BytesOf(m, q) == FlattenSeq([j \in 1..Len(FramesOf(m, q)) |-> RenderFrame(FramesOf(m, q)[j])])
+BytesOf(m, q) ==
+  IF Format = "actisense"        \* the gateway has reassembled the message: one line per message
+  THEN ActisenseReceive(AStamp, m.src, 255, m.prio, PgnNum(m.pgn), m.data, TRUE) \o <<CR, LF>>
+  ELSE FlattenSeq([j \in 1..Len(FramesOf(m, q)) |-> RenderFrame(FramesOf(m, q)[j])])
 
 \* the same message as the decoder model sees it when nothing is in between
 DirectIn(m, q) ==
   CASE m.k = "single"  -> << [k |-> "single", pgn |-> m.pgn, src |-> m.src, tok |-> m.data] >>
     [] m.k = "claim"   -> << [k |-> "claim", src |-> m.src, name |-> m.name] >>
     [] m.k = "unknown" -> << [k |-> "unknown", src |-> m.src] >>
-    [] m.k = "fast"    -> [j \in 1..NFrames(Len(m.data)) |->
-                             [k |-> "frame", src |-> m.src, seq |-> q, fc |-> j - 1, len |-> Len(m.data),
-                              chunk |-> SubSeq(m.data, ChunkStart(j - 1) + 1, ChunkStart(j - 1) + ChunkLen(Len(m.data), j - 1))]]
+    [] m.k = "fast"    -> << [k |-> "whole", src |-> m.src, tok |-> m.data] >>     \* pre-assembled: frame-wise delivery
+                                                                                     \* through the wire must equal it
 
 (* the receiver: a packet as an input of the decoder model *)
 NameOf(data) == LET S == {j \in 1..Len(Script) : Script[j].k = "claim" /\ Script[j].data = data}
                 IN IF S = {} THEN 3 ELSE Script[CHOOSE j \in S : TRUE].name
+InOfLine(p) ==            \* Actisense: a whole message per line
+  LET a == ActisenseParse(p)
+      kind == KindOfPgn(a.pgn)
+  IN CASE kind \in {"A", "B"} -> [k |-> "single", pgn |-> kind, src |-> a.src, tok |-> a.payload]
+       [] kind = "CLAIM"      -> [k |-> "claim", src |-> a.src, name |-> NameOf(a.payload)]
+       [] kind = "F"          -> [k |-> "whole", src |-> a.src, tok |-> a.payload]
+       [] OTHER               -> [k |-> "unknown", src |-> a.src]
 InOfPacket(p) ==
   IF ~PacketValid(p) THEN [k |-> "bad"]
+  ELSE IF Format = "actisense" THEN InOfLine(p)
   ELSE LET fr == ParsePacket(p)
            h == Parse(fr.id)
            kind == KindOfPgn(h.pgn)
